@@ -5,7 +5,7 @@ composing C13 (routing), C15 (placement, quotas), C16 (tenant keys), C17 (fan-ou
 (`KInv`, `OpIn`, `SameSet`, `Inv`, `Rel`, `StepOK` …) is defined in `Lemmas.lean` / `Refine.lean`.
 Notes: notes/ClusterCompose.md.
 -/
-import SemaModel.ClusterCompose.Sync
+import SemaModel.ClusterCompose.Relocate
 namespace Sema.ClusterCompose
 open Sema List
 
@@ -257,10 +257,33 @@ theorem Cluster_sync_preserves (h : Bytes → Nat) (S S' : List Name) (enc : Enc
   obtain ⟨m1, m2⟩ := moved_minimal hI hm
   exact ⟨hnf, i1, i2, hm, m1, m2⟩
 
+/-- **such a `c'` exists, and the model's `relocate` is one**: for every cluster with `Inv`, the
+relocation under the new routing (what the driver's Sync computes) represents exactly the state
+C14's failure-free round leaves (`nodes` duplicate-free and containing every server that holds
+something).  So `Cluster_sync_preserves` is a statement about `relocate … c`, for every `c`. -/
+theorem Cluster_sync_exists (h : Bytes → Nat) (S S' : List Name) (enc : Enc) (henc : EncOK enc)
+    (cs : Nat) (hcs : 0 < cs) (sum : C14.Content → Nat) (hsum : ∀ a b, sum a = sum b → a = b) (hsum0 : sum [] ≠ 0)
+    {c : Cluster} (hI : Inv (routeOf h S) c)
+    (nodes : List Name) (rkeys fkeys : List SKey) (order : List Name) (hnd : nodes.Nodup) (hh : Holders c nodes)
+    (hcov : C14.Covers (syncCfg h S' (fun _ => true) cs sum) (roOf enc (routeOf h S) c) (foOf enc (routeOf h S) c) nodes rkeys fkeys)
+    (hall : ∀ n k, ((syncView enc c).recs n k).isSome ∨ ((syncView enc c).files n k).isSome → n ∈ order) :
+    SyncedTo enc (relocate (routeOf h S') nodes c)
+      (C14.round (syncCfg h S' (fun _ => true) cs sum) nodes rkeys fkeys order (syncView enc c)) := by
+  have hconv := C14.C14_converges (syncCfg h S' (fun _ => true) cs sum) ⟨hsum, hsum0⟩ hcs rfl
+  obtain ⟨hp, _⟩ := hconv (roOf enc (routeOf h S) c) (foOf enc (routeOf h S) c) nodes rkeys fkeys order (syncView enc c) (syncView enc c)
+    (by
+      intro k v hk
+      simp only [foOf, viewFiles] at hk
+      cases hsh : c.sh (routeOf h S (sidKey k.sid)) k with
+      | none => rw [hsh] at hk; cases hk
+      | some P => rw [hsh] at hk; cases hk; exact henc.ptsNe P)
+    (fun _ _ => rfl) hcov (init_of_inv enc hI _ (fun _ => rfl)) .init (fun _ _ => rfl) hall
+  exact synced_of_moved (r := routeOf h S) (r' := routeOf h S') (fun _ => rfl) (fun _ => rfl) hp (relocate_moved hI _ hnd hh)
+
 /-- which owners change (C13_add): after a server `x` was ADDED, every shard directory of the
 synced cluster is on `x` or where it was; … -/
 theorem Cluster_sync_add (h : Bytes → Nat) {S S' : List Name} (x : Name) (p : S'.Perm (x :: S))
-    {c c' : Cluster} (hI : Inv (routeOf h S) c) (hm : MovedTo (routeOf h S) (routeOf h S') c c')
+    {c c' : Cluster} (hm : MovedTo (routeOf h S) (routeOf h S') c c')
     (hnt : ∀ n k P, c.sh n k = some P → C13.NoTies h (sidKey k.sid) S') :
     ∀ n k P, c'.sh n k = some P → n = x ∨ c.sh n k = some P := by
   intro n k P hc'
